@@ -166,3 +166,17 @@ CASES += [
     {"name": "propagator keeps the conjugated operators in a real array", "kind": "mutant", "rule": "C02-B", "edits": [
         ("quantarhei/qm/propagators/rdmpropagator.py", "        Kd = numpy.zeros(Km.shape, dtype=Km.dtype)", "        Kd = numpy.zeros(Km.shape, dtype=numpy.float64)", 2)]},
 ]
+
+HAMF = "quantarhei/qm/hilbertspace/hamiltonian.py"
+CASES += [
+    {"name": "scalar product without conjugation (the repaired defect)", "kind": "mutant", "rule": "C02-L", "edits": [
+        ("quantarhei/qm/hilbertspace/statevector.py", "        return numpy.vdot(self.data, vec.data)", "        return numpy.dot(self.data, vec.data)", 1)]},
+    {"name": "norm without conjugation (the repaired defect)", "kind": "mutant", "rule": "C02-L", "edits": [
+        ("quantarhei/qm/hilbertspace/statevector.py", "        return numpy.sqrt(numpy.real(numpy.vdot(self.data, self.data)))", "        return numpy.sqrt(numpy.dot(self.data, self.data))", 1)]},
+    {"name": "norm written with an explicit conjugate", "kind": "twin", "edits": [
+        ("quantarhei/qm/hilbertspace/statevector.py", "        return numpy.sqrt(numpy.real(numpy.vdot(self.data, self.data)))", "        return numpy.sqrt(numpy.real(numpy.dot(numpy.conj(self.data), self.data)))", 1)]},
+    {"name": "undiagonalize inverts with the bare transpose (the repaired defect)", "kind": "mutant", "rule": "C02-L", "edits": [
+        (HAMF, "        S1 = numpy.conj(self.SS.T)", "        S1 = self.SS.T", 1)]},
+    {"name": "diagonalize transforms the remainder with the bare transpose", "kind": "mutant", "rule": "C02-L", "edits": [
+        (HAMF, "                self.JR = numpy.dot(numpy.conj(SS.T),numpy.dot(self.JR,SS))", "                self.JR = numpy.dot(SS.T,numpy.dot(self.JR,SS))", 1)]},
+]
